@@ -2,6 +2,8 @@
 from mirq import callee, fmt_origin, origin_calls, strip_refs
 from props import net
 
+THOROUGH_CONFIGS = ["default", "blocking", "websocket", "all"]
+
 EXPLANATION = (
     "R7.1: Packet::maybe_pong is extracted from MIR as a finite decision table over its switch edges; exactly one row returns Some, "
     "its conditions are (variant Tiny, sub-type discriminant = TinyType::None, request id byte = 0) and its value is "
